@@ -317,12 +317,15 @@ class Result(JsonSerializable):
         self.num_updates: int = 0
 
         if update_type_code == Result.CHOICETYPE:
-            if not isinstance(choice_num, int):
+            # A count often is a numpy integer (a `size`, a `shape` entry, an
+            # element of an integer array): that is as good as a Python int
+            if isinstance(choice_num, bool) or not isinstance(
+                    choice_num, (int, np.integer)):
                 raise RuntimeError(
                     "'choice_num' argument for the Result object must be "
                     "an integer for the CHOICETYPE type.")
 
-            self._value = np.zeros(choice_num, dtype=int)
+            self._value = np.zeros(int(choice_num), dtype=int)
 
         # Accumulation of values: This is useful for debugging/testing
         self._accumulate_values_bool: bool = accumulate_values
